@@ -304,7 +304,8 @@ inline std::vector<std::uint8_t> DnsMessage::encodeName(const std::string &name)
 
   encoded.push_back(0); // Null terminator
 
-  if (encoded.size() > constants::DNS_MAX_NAME_SIZE)
+  // RFC 1035 2.3.4: 255 octets on the wire including the terminating zero octet
+  if (encoded.size() > constants::DNS_MAX_NAME_SIZE + 2)
   {
     throw DnsParseException("Domain name too long: " + name);
   }
@@ -632,10 +633,12 @@ DnsMessage::decodeNameWithLoopDetection(const std::uint8_t *data, std::size_t of
     offset += length + 1;
 
     totalLength += length + 1;
-    if (totalLength > constants::DNS_MAX_NAME_SIZE)
+    // RFC 1035 2.3.4: 255 octets on the wire including the terminating zero octet,
+    // i.e. DNS_MAX_NAME_SIZE (253) presentation characters
+    if (totalLength + 1 > constants::DNS_MAX_NAME_SIZE + 2)
     {
-      throw DnsParseException("Domain name too long: " + std::to_string(totalLength) + " (max " +
-                              std::to_string(constants::DNS_MAX_NAME_SIZE) + ")");
+      throw DnsParseException("Domain name too long: " + std::to_string(totalLength + 1) +
+                              " octets (max " + std::to_string(constants::DNS_MAX_NAME_SIZE + 2) + ")");
     }
   }
 
